@@ -232,25 +232,26 @@ Definition labels_of (g : cfg) (s : list st) : list label :=
 Definition next_set (g : cfg) (s : list st) (l : label) : list st :=
   cl g (add_new (map snd (filter (fun p => label_eqb l (fst p)) (flat_map (lab_succ g) s))) []).
 
-Fixpoint bisim (g1 g2 : cfg) (fuel : nat) (todo visited : list (list st * list st)) : bool :=
+Fixpoint bisim (acc : bool) (g1 g2 : cfg) (fuel : nat) (todo visited : list (list st * list st)) : bool :=
   match fuel with
   | O => false
   | S n =>
       match todo with
       | [] => true
       | (s1, s2) :: rest =>
-          if existsb (fun v => seteq s1 (fst v) && seteq s2 (snd v)) visited then bisim g1 g2 n rest visited
+          if existsb (fun v => seteq s1 (fst v) && seteq s2 (snd v)) visited then bisim acc g1 g2 n rest visited
           else
             let l1 := labels_of g1 s1 in
             let l2 := labels_of g2 s2 in
-            Bool.eqb (accepting g1 s1) (accepting g2 s2)
+            (negb acc || Bool.eqb (accepting g1 s1) (accepting g2 s2))
             && forallb (fun l => existsb (label_eqb l) l2) l1
             && forallb (fun l => existsb (label_eqb l) l1) l2
-            && bisim g1 g2 n (map (fun l => (next_set g1 s1 l, next_set g2 s2 l)) l1 ++ rest) ((s1, s2) :: visited)
+            && bisim acc g1 g2 n (map (fun l => (next_set g1 s1 l, next_set g2 s2 l)) l1 ++ rest) ((s1, s2) :: visited)
       end
   end.
 Definition start (g : cfg) : list st := match g_entry g with Some e => cl g [(e, O)] | None => [] end.
-Definition lang_eq (g1 g2 : cfg) : bool := bisim g1 g2 2000 [(start g1, start g2)] [].
+(* acc = true: additionally compare the words that end at the end of the exit block *)
+Definition lang_eq (acc : bool) (g1 g2 : cfg) : bool := bisim acc g1 g2 2000 [(start g1, start g2)] [].
 
 (* what the property text says append must be: the first graph, then a fresh copy of the second,
    joined by one unconditional edge exit(a) -> entry(b'); entry of a, exit of b'.  (Appending to a
@@ -268,6 +269,10 @@ Definition spec_append (a b : cfg) : cfg :=
                0 (g_entry a) (sh (g_exit b))
   end.
 
+Definition is_some {A} (o : option A) : bool := match o with Some _ => true | None => false end.
+Definition append_pre (a b : cfg) : bool :=
+  is_some (g_entry b) && is_some (g_exit b)
+  && match g_blocks a with [] => true | _ => is_some (g_entry a) && is_some (g_exit a) end.
 Definition is_okr {A} (r : res A) : bool := match r with Ok _ => true | _ => false end.
 
 Fixpoint oracle_steps (os : list ostate) (steps : list hstep) : bool :=
@@ -279,8 +284,17 @@ Fixpoint oracle_steps (os : list ostate) (steps : list hstep) : bool :=
       let after := os_cfg o in
       inv_ok o
       && match hs_op s with
-         | CMerge => is_okr (hs_res s) && lang_eq before after
-         | CAppend k => if is_okr (hs_res s) then lang_eq (spec_append before (os_cfg (nth_obs os k))) after else true
+         | CMerge => is_okr (hs_res s) && lang_eq false before after
+         | CAppend k =>
+             let src := os_cfg (nth_obs os k) in
+             if is_okr (hs_res s) then lang_eq true (spec_append before src) after
+             else negb (append_pre before src)      (* with entry/exit set on both sides append does not fail *)
+         | CInsert k =>
+             (* the inserted copy, entered at the returned entry, runs exactly like the source *)
+             match hs_res s with
+             | Ok [a; b] => lang_eq true (mkcfg (g_blocks after) (g_edges after) 0 (Some a) (Some b)) (os_cfg (nth_obs os k))
+             | _ => true
+             end
          | _ => true
          end
       && oracle_steps (set_nth os (hs_target s) o) rest
